@@ -31,6 +31,21 @@ import (
 	"github.com/Tnze/go-mc/nbt/dynbt"
 )
 
+// Defined (named) types: the decoder must reach them through their kind (SetFloat / SetInt / SetString, converted map
+// keys); reflect.Set with a value of the underlying type panics.
+type (
+	defKey  string
+	defStr  string
+	defU8   uint8
+	defI8   int8
+	defI16  int16
+	defI32  int32
+	defI64  int64
+	defF32  float32
+	defF64  float64
+	defBool bool
+)
+
 type hsAB[T, U any] struct {
 	A T `nbt:"a"`
 	B U `nbt:"b"`
@@ -77,6 +92,15 @@ func wideEntries() []entry {
 		wide[hsAB[map[string]int32, []map[string]string]]("struct{a map[string]int32; b []map[string]string}"),
 		wide[hsAB[fmt.Stringer, error]]("struct{a fmt.Stringer; b error}"),
 		wide[hsAB[[]dynbt.Value, [2]uint32]]("struct{a []dynbt.Value; b [2]uint32}"),
+		wide[map[defKey]int8]("map-defined-key"), wide[map[defKey]defStr]("map-defined-key-defined-string"),
+		wide[[]defU8]("slice-defined-uint8"), wide[[]defI8]("slice-defined-int8"), wide[[]defBool]("slice-defined-bool"),
+		wide[[]defI32]("slice-defined-int32"), wide[[]defI64]("slice-defined-int64"), wide[[]defStr]("slice-defined-string"),
+		wide[[2]defU8]("array2-defined-uint8"), wide[[2]defI32]("array2-defined-int32"),
+		wide[defF32]("defined-float32"), wide[defF64]("defined-float64"), wide[defI16]("defined-int16"), wide[defBool]("defined-bool"), wide[defStr]("defined-string"),
+		wide[hsAB[defF32, defF64]]("struct{a defined float32; b defined float64}"),
+		wide[hsAB[[]defU8, []defI8]]("struct{a []defined uint8; b []defined int8}"),
+		wide[hsAB[map[defKey]defI64, defStr]]("struct{a map[defined]defined int64; b defined string}"),
+		wide[hsAB[*defF64, []defF32]]("struct{a *defined float64; b []defined float32}"),
 	}
 }
 
